@@ -210,7 +210,8 @@ def snapshot(dst, kf, mode, notes):
             if os.path.exists(fp):
                 os.remove(fp)
                 mp = os.path.join(os.path.dirname(fp), "mod.rs")
-                open(mp, "w").write(open(mp).read().replace(decl + "\n", ""))
+                txt = open(mp).read().replace(decl + "\n", "")
+                open(mp, "w").write(txt)
         notes.append("VERIF_PINNED_TREE=1: harness file c04b.rs (names post-repair functions) dropped")
     with open(os.path.join(src, "verif", "kf.rs"), "w") as f:
         f.write(kf_consts(kf))
